@@ -104,7 +104,6 @@ pub fn fuzz_ops(data: &[u8]) {
     let case = Case { vol, ops };
     let mut cfg = RunCfg::new(&[Aspect::Outcome, Aspect::Tree, Aspect::File, Aspect::Fsck, Aspect::Panic, Aspect::Budget]);
     cfg.flush_each = true;
-    cfg.known.dst_inside_src = run::known_active("C01", "rename-dir-into-own-subtree");
     let (trace, viol) = run_history(&cfg, &case.vol, &case.ops);
     let mut out = CaseOut::default();
     out.hash = run::hash_str(&serde_json::to_string(&case).unwrap_or_default());
